@@ -139,6 +139,11 @@ def generate(prop, rng, index, tier):
     treads = []
     if rng.random() < 0.35:
         treads.append({"dtype": rng.choice(["Positive Float", "Positive Integer", None, "Integer"])})
+    if template["var"]["dtype"] in ("f4", "f8") and rng.random() < 0.3:
+        # the variable holds tenths (not representable in binary) and one of them is declared the missing value: the
+        # comparison is in the variable's own precision (a float32 0.3 is the 0.3 the user means)
+        template["var"]["tenths"] = True
+        treads.append({"dtype": rng.choice([None, "Float", "Positive Float"]), "missing_cell": rng.randrange(ncell)})
     order = list(range(ngrids))
     rng.shuffle(order)
     template["var"]["missing_cells"] = sorted(rng.sample(range(ncell), rng.randint(0, max(0, ncell // 3)))) \
@@ -198,6 +203,8 @@ def _make_template(path, t):
         v = ds.createVariable(var["name"], var["dtype"], tuple(d for d, _ in t["dims"]), **kw)
         shape = tuple(n for _, n in t["dims"])
         base = numpy.ma.array(numpy.arange(int(numpy.prod(shape))).reshape(shape).astype(var["dtype"]))
+        if var.get("tenths"):
+            base = numpy.ma.array((numpy.arange(int(numpy.prod(shape))) * 0.1).reshape(shape).astype(var["dtype"]))
         miss = [i for i in (var.get("missing_cells") or []) if i < int(numpy.prod(shape))]
         if miss:
             m = numpy.zeros(int(numpy.prod(shape)), dtype=bool)
@@ -485,10 +492,17 @@ def execute(sc):
                     ncell = int(numpy.prod(shape))
                     miss = set(i for i in (t["var"].get("missing_cells") or []) if i < ncell)
                     g = {"name": t["var"]["name"], "values": [float(i) for i in range(ncell)]}
+                    if t["var"].get("tenths"):
+                        g["values"] = [float(numpy.array(i * 0.1).astype(t["var"]["dtype"])) for i in range(ncell)]
                     tmask = [i in miss for i in range(ncell)]
                     args = {"InFileName": tmpl, "InFieldName": t["var"]["name"]}
                     if rd.get("dtype"):
                         args["DataType"] = rd["dtype"]
+                    if rd.get("missing_cell") is not None and t["var"].get("tenths"):
+                        j = rd["missing_cell"] % ncell
+                        args["MissingValue"] = j * 0.1
+                        tmask = [m_ or i == j for i, m_ in enumerate(tmask)]
+                        res.probe("missing value that is not representable in binary, compared in the variable's precision")
                     rname = "T%d" % k
                     program.add_command(program.find_command_class("EEMSRead"), rname, args)
                     try:
@@ -498,6 +512,9 @@ def execute(sc):
                     except Exception as exc:  # noqa
                         got, err = None, exc
                     log.emit("read-template", dtype=rd.get("dtype"), ok=err is None)
+                    if t["var"].get("tenths") and rd.get("dtype") in ("Integer", "Positive Integer"):
+                        res.observe("fractional float32 / float64 data read as integers: rounding rule not settled, not judged")
+                        continue
                     _judge(res, g, {"dtype": rd.get("dtype"), "missing": None}, got, err, tmask, shape, numpy, MPilotError,
                            tag="template-variable ")
                     if miss and t["var"]["fill"] is not None and t["var"]["fill"] < 0:
